@@ -129,7 +129,8 @@ def _problem(case):
     if case.get("fullrank"):
         ttns, info = gen.random_fullrank_ttns(rng, nprng, par, phys=(2, 3) if n <= 5 else (2,), bonds=(2, 2, 3))
     else:
-        ttns, info = gen.random_ttns(rng, nprng, par, phys=(2, 2, 3) if n <= 5 else (2,), bonds=(1, 2, 3, 4))
+        ttns, info = gen.random_ttns(rng, nprng, par, phys=(2, 2, 3) if n <= 5 else (2,),
+                                     bonds=tuple(case.get("bonds") or (1, 2, 3, 4)))
     names = info["names"]
     if case.get("pregauge"):
         # the caller hands over a state that is already canonical somewhere (KEEP keeps padded bonds)
@@ -137,8 +138,9 @@ def _problem(case):
         ttns.canonical_form(rng.choice(sorted(ttns.nodes)), mode=getattr(SplitMode, case["pregauge"]))
     phys = {i: info["open"][i][0] for i in range(n)}
     terms = []
-    for _ in range(rng.randint(1, 3)):
-        sites = rng.sample(range(n), rng.randint(1, min(2, n)))
+    rich = case.get("rich")
+    for _ in range(6 if rich else rng.randint(1, 3)):
+        sites = rng.sample(range(n), rng.randint(1, min(3 if rich else 2, n)))
         terms.append({s: gen.rand_hermitian(nprng, phys[s]) for s in sites})
     H, Hm = algos.ttno_from_terms(par, phys, names, terms, rng, nprng)
     negterms = []
